@@ -315,7 +315,11 @@ def run(ctx):
     quic = quic + ["quic_pipeline_corr"]
     import translate                 # decision-logic functions re-translated from the source and proved equal to the model
     _tm, _tt = translate.wire(ctx, "C03")
-    ctx.prove(["TLX.Props.C03", "TLX.Props.C04", "TLX.Props.C01Pipeline"] + c02_model.modules(quic) + _tm)
+    import export_inputs_thms          # whole-program form: bystander conversations unaffected (Props/ExportInputs)
+    ctx.prove(["TLX.Props.C03", "TLX.Props.C04", "TLX.Props.C01Pipeline"] + c02_model.modules(quic) + _tm + export_inputs_thms.MODULES)
+    ctx.require_theorems(export_inputs_thms.THEOREMS_C03)
+    import file_corr
+    file_corr.correspond(ctx, ctx.n(12, 200))     # ties the whole-program model (the theorems' subject) file to file
     ctx.require_theorems(_tt)
     ctx.require_theorems(session_corr.THEOREMS_C03 + [t for t in c02_model.theorems(quic) if t.rsplit(".", 1)[1] in (
         "dissect_total", "dissect_loop_total", "dissect_progress", "session_total", "session_total_run",
